@@ -14,6 +14,7 @@ mod emitted;
 mod exec;
 mod exec_props;
 mod gen_special;
+mod hostile;
 mod gen_ast;
 mod gen_prog;
 mod l2;
